@@ -141,10 +141,143 @@ RESERVED = ['class', 'delete', 'new', 'template', 'namespace', 'E', 'None', 'def
 
 
 def classify_c12(case, detail):
-    """D40: identifiers that are reserved in a target language (or `E`, the template parameter of the generated C++)"""
+    """D40: identifiers that are reserved in a target language (or `E`, the template parameter of the generated C++);
+    D59: isar text naming an enumerator of an xi:include'd file (the Python output does not import it)"""
     if case.get('rule') == 'identifier reserved in a target language':
         return 'D40'
+    if case.get('rule') == 'patch: remove leaving a struct without members' and set(detail.get('backends', {})) == {'cpp_full'}:
+        return 'D56'
+    if case.get('rule') == 'isar: enumerator of an included file used by name' and set(detail.get('backends', {})) == {'python'} \
+            and 'NameError' in detail['backends']['python']:
+        return 'D59'
     return None
+
+
+ISAR = '<x xmlns:xi="http://www.xyz.com/1984/XInclude">%s</x>'
+
+# (rule, front-end option, {file: text}, main file, expected: 'reject' | 'usable')
+DIRECTED = [
+    ('definition named like a built-in type (struct r32)', None,
+     {'a.prophy': 'struct r32 { u64 a; u64 b; };\nstruct X { r32 f; u8 t; };\n'}, 'a.prophy', 'reject'),
+    ('definition named like a built-in type (typedef r64)', None,
+     {'a.prophy': 'typedef u8 r64;\nstruct X { r64 f; u8 t; };\n'}, 'a.prophy', 'reject'),
+    ('definition named like a built-in type (enum byte)', None,
+     {'a.prophy': 'enum byte { byte_A = 7 };\nstruct X { byte h; byte k[3]; };\n'}, 'a.prophy', 'reject'),
+    ('definition named like a built-in type (isar struct u16)', '--isar',
+     {'a.xml': ISAR % '<struct name="u16"><member name="a" type="u64"/></struct><struct name="X"><member name="f" type="u16"/></struct>'},
+     'a.xml', 'reject'),
+    ('one name defined differently by two included files', None,
+     {'p.prophy': 'struct S { u8 v; };\n', 'q.prophy': 'struct S { u64 v; u64 w; };\n',
+      'a.prophy': '#include "p.prophy"\n#include "q.prophy"\nstruct M { u8 h; S s; };\n'}, 'a.prophy', 'reject'),
+    ('one constant defined differently by two included files', None,
+     {'p.prophy': 'const K = 1;\n', 'q.prophy': 'const K = 2;\n',
+      'a.prophy': '#include "p.prophy"\n#include "q.prophy"\nstruct M { u8 h[K]; };\n'}, 'a.prophy', 'reject'),
+    ('isar: negative discriminator', '--isar',
+     {'a.xml': ISAR % '<union name="U"><member name="a" type="u8" discriminatorValue="-1"/><member name="b" type="u8" discriminatorValue="2"/></union>'},
+     'a.xml', 'reject'),
+    ('isar: discriminator beyond 32 bits', '--isar',
+     {'a.xml': ISAR % '<union name="U"><member name="a" type="u8" discriminatorValue="1"/><member name="b" type="u8" discriminatorValue="4294967296"/></union>'},
+     'a.xml', 'reject'),
+    ('isar: enumerator beyond 32 bits', '--isar',
+     {'a.xml': ISAR % '<enum name="E"><enum-member name="E_A" value="1"/><enum-member name="E_B" value="0x1FFFFFFFF"/></enum>'},
+     'a.xml', 'reject'),
+    ('isar: enumerator expression below zero', '--isar',
+     {'a.xml': ISAR % '<constant name="K" value="3"/><enum name="E"><enum-member name="E_A" value="K-4"/></enum>'},
+     'a.xml', 'reject'),
+    ('isar: union arm of dynamic type', '--isar',
+     {'a.xml': ISAR % ('<struct name="D"><member name="n" type="u8"/><member name="x" type="u8"><dimension variableSizeFieldName="@n"/></member></struct>'
+                       '<union name="U"><member name="a" type="u32" discriminatorValue="1"/><member name="d" type="D" discriminatorValue="2"/></union>')},
+     'a.xml', 'reject'),
+    ('isar: optional / fixed array of dynamic type', '--isar',
+     {'a.xml': ISAR % ('<struct name="D"><member name="n" type="u8"/><member name="x" type="u8"><dimension variableSizeFieldName="@n"/></member></struct>'
+                       '<struct name="S"><member name="d" type="D"><dimension size="2"/></member></struct>')},
+     'a.xml', 'reject'),
+    ('isar: sizer declared after its array', '--isar',
+     {'a.xml': ISAR % ('<struct name="S"><member name="a" type="u8"><dimension variableSizeFieldName="@n"/></member><member name="n" type="u32"/>'
+                       '<member name="m" type="u32"/><member name="b" type="u8"><dimension variableSizeFieldName="@m"/></member></struct>')},
+     'a.xml', 'reject'),
+    ('isar: negative size of a limited array', '--isar',
+     {'a.xml': ISAR % '<struct name="S"><member name="k" type="u32"/><member name="a" type="u8"><dimension size="-2" isVariableSize="true"/></member></struct>'},
+     'a.xml', 'reject'),
+    ('isar: array size zero', '--isar',
+     {'a.xml': ISAR % '<struct name="S"><member name="t" type="u8"/><member name="x" type="u32"><dimension size="0"/></member></struct>'},
+     'a.xml', 'reject'),
+    ('isar: array size expression below one', '--isar',
+     {'a.xml': ISAR % '<constant name="K" value="2"/><struct name="S"><member name="x" type="u32"><dimension size="K-3"/></member><member name="t" type="u8"/></struct>'},
+     'a.xml', 'reject'),
+    ('patch: type rule making a greedy array of an unlimited struct', ['--patch', 'a.patch'],
+     {'a.prophy': 'struct Chunk { u8 data<...>; };\nstruct Item { u8 x; };\nstruct Msg { Item items<...>; };\n', 'a.patch': 'Msg type items Chunk\n'},
+     'a.prophy', 'reject'),
+    ('patch: member inserted behind a greedy array', ['--patch', 'a.patch'],
+     {'a.prophy': 'struct X { u32 a; u8 g[2]; };\nstruct Y { X x; u8 z; };\n', 'a.patch': 'X greedy g\nX insert 2 t u8\n'},
+     'a.prophy', 'reject'),
+    ('patch: dynamic rule making a union arm / fixed array / optional dynamic', ['--patch', 'a.patch'],
+     {'a.prophy': 'struct A { u32 n; u8 x[3]; };\nunion U { 1: A a; };\n', 'a.patch': 'A dynamic x n\n'},
+     'a.prophy', 'reject'),
+    ('patch: greedy then static leaves an ordinary fixed array', ['--patch', 'a.patch'],
+     {'a.prophy': 'struct G { u8 x; };\nstruct T { G g; u32 t; };\nstruct H { G g[2]; G* o; };\n', 'a.patch': 'G greedy x\nG static x 3\n'},
+     'a.prophy', 'usable'),
+    ('enumerators sharing one value', None,
+     {'a.prophy': 'enum E { E_First = 1, E_Default = 1, E_Other = 2 };\nstruct S { E e; };\n'}, 'a.prophy', 'usable'),
+    ('discriminator and enumerator above 0x7fffffff', None,
+     {'a.prophy': 'enum E { E_A = 0x80000000, E_B = 0xFFFFFFFF };\nunion U { 1: u8 a; 0x80000000: u32 b; 0xFFFFFFFF: E c; };\nstruct S { U u; E e; };\n'},
+     'a.prophy', 'usable'),
+    ('patch: remove leaving a struct without members', ['--patch', 'a.patch'],
+     {'a.prophy': 'struct S { u8 a; };\nstruct T { S s; u8 t; };\n', 'a.patch': 'S remove a\n'}, 'a.prophy', 'usable'),
+    ('isar: typedef and union arm of type byte', '--isar',
+     {'a.xml': ISAR % ('<typedef name="TB" type="byte"/><union name="U"><member name="d" type="byte" discriminatorValue="1"/>'
+                       '<member name="e" type="TB" discriminatorValue="2"/></union><struct name="S"><member name="b" type="TB"/><member name="u" type="U"/></struct>')},
+     'a.xml', 'usable'),
+    ('isar: the same diamond include seen twice', '--isar',
+     {'c.xml': ISAR % '<struct name="C"><member name="a" type="u8"/></struct>',
+      'p.xml': ISAR % '<xi:include href="c.xml"/><struct name="P"><member name="c" type="C"/></struct>',
+      'a.xml': ISAR % '<xi:include href="c.xml"/><xi:include href="p.xml"/><struct name="A"><member name="c" type="C"/><member name="p" type="P"/></struct>'},
+     'a.xml', 'usable'),
+    ('the same diamond include seen twice', None,
+     {'c.prophy': 'struct C { u8 a; };\nconst KC = 2;\nenum EC { EC_A = 1 };\n', 'p.prophy': '#include "c.prophy"\nstruct P { C c[KC]; };\n',
+      'a.prophy': '#include "c.prophy"\n#include "p.prophy"\n#include "c.prophy"\nstruct A { C c; P p; EC e; };\n'}, 'a.prophy', 'usable'),
+    ('isar: enumerator of an included file used by name', '--isar',
+     {'b.xml': ISAR % '<enum name="EB"><enum-member name="EB_X" value="1"/><enum-member name="EB_Y" value="3"/></enum>',
+      'a.xml': ISAR % '<xi:include href="b.xml"/><struct name="S"><member name="e" type="EB"/><member name="m" type="u8"><dimension size="EB_Y"/></member></struct>'},
+     'a.xml', 'usable'),
+]
+
+
+def directed_case(root, k, opt, files, main):
+    """(outcome, message, unusable back-ends) of one directed multi-file / isar case"""
+    import prophyc
+    from harness.checks import files as F
+    d = os.path.join(root, 'd%d' % k)
+    os.makedirs(d)
+    for name, text in files.items():
+        with open(os.path.join(d, name), 'w') as f:
+            f.write(text)
+    out = os.path.join(d, 'out')
+    os.makedirs(out)
+    if isinstance(opt, list):
+        opt = [opt[0], os.path.join(d, opt[1])]
+    args = (opt if isinstance(opt, list) else [opt] if opt else []) + ['-I', d, '--python_out', out, '--cpp_full_out', out, '--cpp_out', out]
+    sources = [n for n in files if not n.endswith('.patch')]
+    leaves = [os.path.splitext(n)[0] for n in sources]
+    try:
+        for name in sources:
+            py_impl.run_prophyc(args + [os.path.join(d, name)])
+    except prophyc.ProphycError as e:
+        return 'ProphycError', str(e), {}
+    except Exception as e:  # noqa
+        return type(e).__name__, str(e)[:300], {}
+    bad = {}
+    try:
+        F.import_package(out, leaves)
+    except Exception as e:  # noqa
+        bad['python'] = '%s: %s' % (type(e).__name__, str(e)[:200])
+    base = os.path.splitext(main)[0]
+    for key, src in (('cpp_full', base + '.ppf.cpp'), ('cpp_raw', base + '.pp.cpp')):
+        p = subprocess.run(['g++', '-std=c++11', '-fsyntax-only', '-I' + os.path.join(REPO, 'prophy_cpp', 'include'), '-I' + out, os.path.join(out, src)],
+                           stdout=subprocess.PIPE, stderr=subprocess.STDOUT, timeout=300)
+        if p.returncode != 0:
+            bad[key] = p.stdout.decode(errors='replace')[:400]
+    return 'ok', '', bad
 
 
 def trees_of(sc):
@@ -170,7 +303,7 @@ def run_c12(tier):
         reqs, rows = [], []
         n = 0
         for si in range(chk.scale(24, 120)):
-            sc = S.Gen(chk.rng, n_decls=7, shared_sizers=False, small_discs=True).schema()
+            sc = S.Gen(chk.rng, n_decls=7, shared_sizers=False).schema()
             text = S.to_prophy(sc)
             d = os.path.join(root, 'v%d' % si)
             outcome, msg = compile_all(text, d)
@@ -221,6 +354,20 @@ def run_c12(tier):
                 bad = {k: v for k, v in backends(d).items() if v}
                 if bad:
                     chk.property_violation(rcase, {'what': 'prophyc succeeded but a generated artifact is unusable', 'backends': {k: v[:150] for k, v in bad.items()}}, classify_c12)
+        # directed multi-file and isar schemas (defects D56..: built-in names, redefinition through includes, isar ranges)
+        for k, (rule, opt, files, main, expected) in enumerate(DIRECTED):
+            outcome, msg, bad = directed_case(root, k, opt, files, main)
+            dcase = {'files': files, 'main': main, 'option': opt, 'rule': rule}
+            chk.count((rule,), True)
+            chk.bump('directed:' + expected)
+            if outcome not in ('ok', 'ProphycError'):
+                chk.property_violation(dcase, {'what': "'%s' ended in %s instead of outputs or a diagnostic" % (rule, outcome), 'message': msg})
+            elif expected == 'reject' and outcome == 'ok':
+                chk.property_violation(dcase, {'what': "rule breaker '%s' was accepted by prophyc" % rule, 'backends': bad})
+            elif expected == 'usable' and outcome != 'ok':
+                chk.property_violation(dcase, {'what': "a valid schema was rejected ('%s'): %s" % (rule, msg[:300])})
+            elif bad:
+                chk.property_violation(dcase, {'what': 'prophyc succeeded but a generated artifact is unusable', 'backends': bad}, classify_c12)
         flat = [r for group in reqs for r in group]
         ans = client.batch(flat)
         k = 0
